@@ -15,8 +15,8 @@ CLAIMED = {
     technique="SAT-based bounded model checking (Kani/CBMC) of one inductive step over a symbolic reference-count word; native replay under valgrind; SMT (z3) over MIR-extracted operand roles of the sharing arms of collection primitives, native replay under the four sharing patterns",
     design="§4 C03"),
  "C04": dict(
-    text="Bounded model checking (Kani/CBMC) of the real mutable-storage allocator FreeList<T> (instantiated at u8): one weak collection and one allocation (thorough: also mark reset + recount) from EVERY 3-slot pre-state satisfying the invariant; no slot with a held handle is overwritten or freed, the new handle reads back its value, the invariant is re-established. Plus SMT queries (z3, QF_BV) over the kind tables of the tracing visitors read from the MIR of the real functions (push_back leaf list, visit dispatch, tracing call sites per visit method, SteelValPointer::from_value): no value kind is skipped by the marker or by the reference marker of sync builds while a sibling visitor traces its children. Round 3: per visit method a rank-encoded reachability query (can the method return without passing any of its tracing calls?) and a differential query over the three visitors (no early exit that no sibling has).",
-    note="N = 3 slots, >= 2 free before an allocation (growth by 25600 slots and compaction outside). Kind tables: differential between the three implementations of the same scheme (a change made identically to all three is not seen); which children a visit method pushes is interpreted only as a count of tracing call sites. Outside: completeness of the root set (needs a running VM), the order of mark-bit resets, the parallel marker's work distribution.",
+    text="Bounded model checking (Kani/CBMC) of the real mutable-storage allocator FreeList<T> (instantiated at u8): one weak collection and one allocation (thorough: also mark reset + recount) from EVERY 3-slot pre-state satisfying the invariant; no slot with a held handle is overwritten or freed, the new handle reads back its value, the invariant is re-established. Plus SMT queries (z3, QF_BV) over the kind tables of the tracing visitors read from the MIR of the real functions (push_back leaf list, visit dispatch, tracing call sites per visit method, SteelValPointer::from_value): no value kind is skipped by the marker or by the reference marker of sync builds while a sibling visitor traces its children. Round 3: per visit method a rank-encoded reachability query (can the method return without passing any of its tracing calls?) and a differential query over the three visitors (no early exit that no sibling has). And two data-flow facts of the collector's entry points: the value(s) about to be stored are handed to the marker of the collection their own allocation triggers; counting free slots (recount) takes no write access to a slot.",
+    note="N = 3 slots, >= 2 free before an allocation (growth by 25600 slots and compaction outside). Kind tables: differential between the three implementations of the same scheme (a change made identically to all three is not seen); which children a visit method pushes is interpreted only as a count of tracing call sites. Outside: completeness of the root set beyond the value being stored (needs a running VM), the parallel marker's work distribution.",
     technique="SAT-based bounded model checking (Kani/CBMC) of one allocator step from a symbolic valid state, and SMT (z3, QF_BV) over MIR-extracted kind tables of the marker visitors; native replay by concrete playback / a collection-and-churn program on the real engine",
     design="§4 C04"),
  "C06": dict(
